@@ -83,6 +83,72 @@ def rand_scenario(rng, max_n=8, rich=True):
     return sc
 
 
+def reuse_finished_folder(sc):
+    """C20Stable (audit finding C20-G1): let ONE of the simultaneously starting runs take the output folder of a finished
+    (`warm`) run whose artefacts are in the cache - "separate output folders" holds between the running runs, not between a
+    running run and the history.  Mostly with a same-named OTHER annotation / reference (the run converts into the very
+    path another running run may have taken from the cache), sometimes with the same input (then it only re-converts
+    with --clean_start).  Another running run gets the finished run's clients, so that cache hits on that folder occur.
+    Deterministic post-processing with a private generator seeded by the scenario itself: the stream of `rand_scenario`
+    is exactly the one it was before this option existed.  Returns True when the scenario was changed."""
+    import json
+    import random
+    import zlib
+    if not sc["warm"] or sc["n"] < 2:
+        return False
+    r2 = random.Random(zlib.crc32(json.dumps(sc, sort_keys=True).encode()))
+    if r2.random() >= 0.45:
+        return False
+    first = sc["warm"][0]
+    j = r2.randrange(sc["n"])
+    run = dict(sc["runs"][j], out=first["out"])
+    other = r2.random() < 0.7
+    if first["db"]:
+        if other and first["db"]["gtf"] == "annA.gtf":
+            run["db"] = {"gtf": "alt/annA.gtf", "complete": first["db"]["complete"]}
+        elif other:
+            run["db"] = {"gtf": first["db"]["gtf"], "complete": not first["db"]["complete"]}
+        else:
+            run["db"] = dict(first["db"])
+            run["clean_start"] = r2.random() < 0.5
+    stores = []
+    for st in first["stores"]:
+        if st["kind"] == "index" and st["reference"] == "ref1.fa" and other:
+            stores.append(dict(st, reference="alt/ref1.fa"))
+        elif st["kind"] == "align" and other:
+            stores.append(dict(st, index="i2.idx" if st["index"] == "i1.idx" else "i1.idx"))
+        else:
+            stores.append(dict(st))
+    if stores:
+        run["stores"] = stores
+    sc["runs"][j] = run
+    i = (j + 1 + r2.randrange(sc["n"] - 1)) % sc["n"]        # a running run with the finished run's own inputs
+    sc["runs"][i] = dict(sc["runs"][i], clean_start=False, db=dict(first["db"]) if first["db"] else sc["runs"][i]["db"],
+                         stores=[dict(st) for st in first["stores"]] or sc["runs"][i]["stores"])
+    sc["reuse"] = {"run": j, "folder_of_warm": 0, "other_input": other, "reader": i}
+    return True
+
+
+def stable_scenarios():
+    """`shared_target_overwrite_witness` (Props/C20Stable.lean) as a scenario for the real functions: A0 (folder oX, annA)
+    has finished; B (folder o0, annA) performs its lookup (4 x exists, load, lookup), then A' (folder oX again, a same-named
+    other annotation) runs from start to end, then B goes on; and the control in which A' comes first (B then converts
+    itself: nothing is shared)"""
+    a0 = {"out": "oX", "clean_start": False, "db": {"gtf": "annA.gtf", "complete": True}, "stores": []}
+    b = {"out": "o0", "clean_start": False, "db": {"gtf": "annA.gtf", "complete": True}, "stores": []}
+    a1 = {"out": "oX", "clean_start": False, "db": {"gtf": "alt/annA.gtf", "complete": True}, "stores": []}
+    base = {"n": 2, "runs": [b, a1], "warm": [a0], "touch": [], "corrupt": {}, "clock0": 1000}
+    i0 = {"out": "oX", "clean_start": False, "db": None,
+          "stores": [{"kind": "index", "reference": "ref1.fa", "data_type": "nanopore"}]}
+    ib = dict(i0, out="o0")
+    i1 = {"out": "oX", "clean_start": False, "db": None,
+          "stores": [{"kind": "index", "reference": "alt/ref1.fa", "data_type": "nanopore"}]}
+    return [dict(base, schedule=[0] * 6 + [1] * 8, name="shared_target_overwrite_witness"),
+            dict(base, schedule=[1] * 8 + [0] * 8, name="shared_target_overwrite_control"),
+            {"n": 2, "runs": [ib, i1], "warm": [i0], "touch": [], "corrupt": {}, "clock0": 1000,
+             "schedule": [0] * 5 + [1] * 8, "name": "shared_index_overwrite_witness"}]
+
+
 def witness_scenarios():
     """the two Lean witnesses of the original protocol as scenarios for the real code (the schedule is given in terms
     of `until`: process, step label, file, occurrence – resolved against the realised trace by the harness)"""
@@ -116,9 +182,15 @@ def materialise(base, sc):
     home = os.path.join(base, "home")
     os.makedirs(home, exist_ok=True)
 
+    for r in sc["runs"] + sc["warm"]:
+        os.makedirs(os.path.join(base, r["out"]), exist_ok=True)
+    return (home,) + cfgs(base, sc)
+
+
+def cfgs(base, sc):
+    """the harness cfgs of a scenario for a given scratch directory (pure: creates nothing); (cfgs, warm cfgs)"""
     def cfg_of(run):
         out = os.path.join(base, run["out"])
-        os.makedirs(out, exist_ok=True)
         cfg = {"output": out, "clean_start": run["clean_start"], "stores": []}
         if run["db"]:
             gtf = os.path.join(base, run["db"]["gtf"])
@@ -134,4 +206,4 @@ def materialise(base, sc):
                                       "index": os.path.join(base, st["index"]),
                                       "annotation": os.path.join(base, st["annotation"]) if st["annotation"] else None})
         return cfg
-    return home, [cfg_of(r) for r in sc["runs"]], [cfg_of(r) for r in sc["warm"]]
+    return [cfg_of(r) for r in sc["runs"]], [cfg_of(r) for r in sc["warm"]]
